@@ -252,7 +252,8 @@ def correspondence(ctx):
         reps = {"nucleotide": (3, 30), "protein": (1, 8), "codon": (1, 4)}[typ][1 if thorough else 0]
         plan(name, reps)
     for label in user:
-        n_reps = (2, 15) if "Di" not in label else (1, 6)
+        big = any(k in label for k in ("Codon", "Tri"))
+        n_reps = (1, 3) if big else ((2, 15) if "Di" not in label else (1, 6))
         plan(label, n_reps[1 if thorough else 0])
 
     replies = drv.batch(reqs)
@@ -608,6 +609,21 @@ def _check_Q(out, label, sm, lf, edge, inp, reversible, stationary):
     n = Q.shape[0]
     scale = max(1.0, float(np.abs(Q).max()))
     out["evaluations"] += 1
+    # the word probabilities the calculator itself uses (they calibrate Q): a distribution, equal to the independent value
+    try:
+        wimpl = np.array(lf.get_param_value("wprobs" if sm._mprob_model in ("monomer", "monomers") else "mprobs"), float)
+    except Exception as e:
+        wimpl = None
+        bump(out, "wprobs_unreadable", type(e).__name__)
+    if wimpl is not None and wimpl.shape == wp.shape:
+        bump(out, "wprobs_checked", sm._mprob_model)
+        tot = float(wimpl.sum())
+        if not abs(tot - 1.0) <= 1e-5 + 1e-9:  # PartitionDefn itself only guarantees 1e-5 for user-supplied vectors
+            _fail(out, "spec", "word probabilities of the model do not sum to one", inp, 1.0, tot, sig=f"wprobs-sum:{sm._mprob_model}")
+        dw = float(np.abs(wimpl - wp * (tot if sm._mprob_model in ("tuple", "conditional") else 1.0)).max())
+        if not dw <= 1e-9:
+            _fail(out, "spec", "word probabilities differ from the normalised product of monomer probabilities", inp, wp.tolist()[:6],
+                  wimpl.tolist()[:6], sig=f"wprobs-value:{sm._mprob_model}")
     rs = np.abs(Q.sum(axis=1)).max()
     if not rs <= 1e-11 * scale * n:
         _fail(out, "spec", "rows of Q do not sum to zero", inp, 0.0, float(rs), sig="Q-rowsum")
@@ -984,7 +1000,8 @@ def spec_check(ctx, budget):
             reps = 1
         plan.append((name, reps))
     for label in user:
-        plan.append((label, (1 if "Di" in label else 2) * budget))
+        big = any(k in label for k in ("Codon", "Tri"))
+        plan.append((label, (1 if ("Di" in label or big) else 2) * (1 if (big and not ctx.thorough) else budget)))
     for label, reps in plan:
         sm = _get_model(out, label)
         if sm is None:
